@@ -31,7 +31,7 @@ theorem CalcR.mem_dyn {inp : RunInput} {s : Sys} {n : Name} {nd : Node} (hok : N
     exact (sd.deliv c ih hg).2.2 x hm
 
 /-- at a complete end every member of the denotational closure has been reported -/
-theorem closure_reported {inp : RunInput} {s : Sys} (hr : Reach inp s ∨ PReach inp s)
+theorem closure_reported {inp : RunInput} [NoFailDeliver inp] {s : Sys} (hr : Reach inp s ∨ PReach inp s)
     (hend : s.rpc = .halted) (hhalt : s.halt = .none) (hstop : s.stop = false) (t : Name) (h : DenCl inp t) :
     Reported s t := by
   have hE : EndFacts inp s := by
@@ -75,7 +75,7 @@ theorem closure_reported {inp : RunInput} {s : Sys} (hr : Reach inp s ∨ PReach
 
 /-- closure equality: at a complete end of a run — serial or parallel, any schedule, any graph — exactly the members of
     the denotational closure of the selection have a terminal report -/
-theorem reported_iff_closure {inp : RunInput} {s : Sys} (hr : Reach inp s ∨ PReach inp s)
+theorem reported_iff_closure {inp : RunInput} [NoFailDeliver inp] {s : Sys} (hr : Reach inp s ∨ PReach inp s)
     (hend : s.rpc = .halted) (hhalt : s.halt = .none) (hstop : s.stop = false) (t : Name) :
     Reported s t ↔ DenCl inp t :=
   ⟨reported_in_closure hr t, closure_reported hr hend hhalt hstop t⟩
